@@ -424,6 +424,43 @@ func c14R5(c *Ctx, rule string) {
 	if ru == nil {
 		return
 	}
+	// stream isolation on the way back: what a per-stream goroutine captures is fixed when it starts. A captured
+	// variable that the listener loop assigns again afterwards (one `addr` declared outside the loop) makes every
+	// stream's replies go to whoever sent last.
+	allInstrs(ru, func(i ssa.Instruction) {
+		g, ok := i.(*ssa.Go)
+		if !ok {
+			return
+		}
+		mc, ok := g.Call.Value.(*ssa.MakeClosure)
+		if !ok {
+			return
+		}
+		for k, b := range mc.Bindings {
+			al, isAl := b.(*ssa.Alloc)
+			if !isAl {
+				continue
+			}
+			cell := al
+			hit := forwardSearch(i, func(j ssa.Instruction) bool { return j == ssa.Instruction(cell) }, func(j ssa.Instruction) bool {
+				st, isSt := j.(*ssa.Store)
+				return isSt && st.Addr == ssa.Value(cell)
+			})
+			name := al.Comment
+			if fn, isFn := mc.Fn.(*ssa.Function); isFn && k < len(fn.FreeVars) {
+				name = fn.FreeVars[k].Name()
+			}
+			if t := typeStr(al.Type().(*types.Pointer).Elem()); t == "sync.Mutex" || strings.HasPrefix(t, "map[") {
+				continue // the shared table and its lock are meant to be shared
+			}
+			where := ""
+			if hit != nil {
+				where = p.InstrPos(hit)
+			}
+			c.Check(hit == nil, rule, "variable "+name+" captured by the per-stream goroutine is not reassigned after it starts", c.at(i), "per-iteration variable (or never written again)",
+				"the listener loop writes "+name+" again (at "+where+") while the goroutine started here still reads it: a stream's replies are addressed with another client's value")
+		}
+	})
 	ls := p.Locksets()
 	// find the map alloc and the mutex alloc (locals captured by the reader goroutine)
 	var mapAlloc, muAlloc *ssa.Alloc
